@@ -243,6 +243,11 @@ func checkCase(c Case) error {
 			}
 		}
 	}
+	// an object parsed before all the other images below must still report the same digest afterwards
+	kept, kerr := authenticode.Parse(bytes.NewReader(img))
+	if kerr != nil {
+		return fmt.Errorf("Parse rejects a well-formed image: %v", kerr)
+	}
 	// (b) metamorphic
 	if c.All {
 		hx.Class("img/every_position_flipped")
@@ -256,6 +261,17 @@ func checkCase(c Case) error {
 		if err := checkFlip(img, l, want, f); err != nil {
 			return err
 		}
+	}
+	hx.Eval()
+	if d := kept.Hash(crypto.SHA256); !bytes.Equal(d, want.Digest) {
+		return fmt.Errorf("an image object parsed before %d other images were parsed now reports digest %x, before %x (state shared between objects)", len(c.Flips), d, want.Digest)
+	}
+	padded := append([]byte{}, img...)
+	for len(padded)%8 != 0 {
+		padded = append(padded, 0)
+	}
+	if !bytes.Equal(kept.Bytes(), padded) {
+		return fmt.Errorf("an image object parsed before other images were parsed no longer serialises to its own bytes (zero-padded to 8)")
 	}
 	return nil
 }
